@@ -29,7 +29,7 @@ class Gen:
                   "custom_lists": 0.3, "paths": 0.3, "settings": 0.15, "single": 0.12, "partial": 0.3,
                   "align": 0.3, "gp": 0.2, "max_segments": 5, "max_files": 5, "max_depth": 3,
                   "dup_opts": 0.1, "makerom": 0.3, "tail": 0.3, "dpath": 0.4, "header": 0.3, "linkable": False,
-                  "addr_class": 0.2, "class_keep": 0.2, "cross_pool": 0.12}
+                  "addr_class": 0.2, "class_keep": 0.2, "cross_pool": 0.12, "eq_vals": 0.0}
         if profile:
             self.p.update(profile)
 
@@ -54,7 +54,7 @@ class Gen:
             return []                                  # the empty option set
         keys = [k for k in OPT_KEYS if self.r.random() < 0.85]
         self.r.shuffle(keys)
-        opts = [(k, self.pick(OPT_VALS)) for k in keys]
+        opts = [(k, self.pick(OPT_VALS + (["opt=0", "a=b=c"] if self.chance("eq_vals") else []))) for k in keys]
         if opts and self.chance("dup_opts"):
             k = self.pick(keys)
             opts.insert(self.r.randrange(len(opts) + 1), (k, self.pick(OPT_VALS)))
